@@ -454,12 +454,75 @@ theorem piecesOf_plain : ∀ (cuts : List Nat) (avail : Bytes), Plain avail →
       simp only [List.map_cons]
       rw [chanRead_plain (h.sublist (List.take_sublist _ _)), ih _ (h.sublist (List.drop_sublist _ _))]
 
+theorem chanReadH_plain {b : Bytes} (h : Plain b) : chanReadH [] b = (b, []) := by
+  unfold chanReadH cleanBuf stripCR
+  have h1 : b.filter (· != CR) = b := by
+    rw [List.filter_eq_self]
+    intro a ha
+    have : a ≠ CR := fun e => h.1 (e ▸ ha)
+    simpa using this
+  simp only [List.nil_append, h1]
+  have h2 : b.contains ESC = false := by
+    rw [Bool.eq_false_iff]; intro hc
+    exact h.2 (by simpa using hc)
+  rw [h2]; rfl
+
+/-- on plain pieces nothing is stripped and nothing is held back -/
+theorem cleanPieces_plain : ∀ (ps : List Bytes), (∀ p ∈ ps, Plain p) → cleanPieces [] ps = (ps, []) := by
+  intro ps
+  induction ps with
+  | nil => intro _; rfl
+  | cons c cs ih =>
+    intro h
+    unfold cleanPieces
+    rw [chanReadH_plain (h c (by simp))]
+    simp only
+    rw [ih (fun p hp => h p (by simp [hp]))]
+
+theorem piecesOf_mem_plain : ∀ (cuts : List Nat) (avail : Bytes), Plain avail →
+    ∀ p ∈ piecesOf avail cuts, Plain p := by
+  intro cuts
+  induction cuts with
+  | nil =>
+    intro avail h p hp
+    cases avail with
+    | nil => simp [piecesOf] at hp
+    | cons a av =>
+      simp only [piecesOf, List.mem_cons, List.not_mem_nil, or_false] at hp
+      subst hp; exact h
+  | cons k ks ih =>
+    intro avail h p hp
+    cases avail with
+    | nil => simp [piecesOf] at hp
+    | cons a av =>
+      rw [piecesOf] at hp
+      rcases List.mem_cons.mp hp with e | e
+      · subst e; exact h.sublist (List.take_sublist _ _)
+      · exact ih _ (h.sublist (List.drop_sublist _ _)) p e
+
+/-- `Wire.readUntil` on a wire with plain unread bytes and nothing held back -/
+theorem readUntil_plain (stop : Bytes → Bool) (w : Wire) (hpl : Plain w.avail) (hh : w.held = []) :
+    Wire.readUntil stop w =
+      match readLoop stop [] (piecesOf w.avail w.cuts) with
+      | none => none
+      | some (buf, k) =>
+        some (buf, { w with avail := ((piecesOf w.avail w.cuts).drop k).flatten, cuts := w.cuts.drop k }) := by
+  unfold Wire.readUntil
+  have hall := piecesOf_mem_plain w.cuts w.avail hpl
+  simp only [hh, cleanPieces_plain _ hall]
+  cases readLoop stop [] (piecesOf w.avail w.cuts) with
+  | none => rfl
+  | some r =>
+    obtain ⟨buf, k⟩ := r
+    simp only
+    rw [cleanPieces_plain _ (fun p hp => hall p (List.mem_of_mem_take hp))]
+
 theorem pieces_split (cuts : List Nat) (avail : Bytes) (k : Nat) :
     ((piecesOf avail cuts).take k).flatten ++ ((piecesOf avail cuts).drop k).flatten = avail := by
   rw [← List.flatten_append, List.take_append_drop, piecesOf_flatten]
 
 /-- the echo read on the wire -/
-theorem readUntil_echo (input : Bytes) (w : Wire) (hpl : Plain w.avail)
+theorem readUntil_echo (input : Bytes) (w : Wire) (hpl : Plain w.avail) (hh : w.held = [])
     (hI : squish input ≠ []) (hF : squishBuf w.avail = squish input) :
     ∃ b1 L cuts', Wire.readUntil (inputSeen false input) w =
         some (b1, { w with avail := L, cuts := cuts' }) ∧
@@ -470,14 +533,12 @@ theorem readUntil_echo (input : Bytes) (w : Wire) (hpl : Plain w.avail)
     readLoop_echo input w.avail hF (piecesOf w.avail w.cuts) [] (by simp [piecesOf_flatten]) hne
   refine ⟨((piecesOf w.avail w.cuts).take k).flatten, ((piecesOf w.avail w.cuts).drop k).flatten,
     w.cuts.drop k, ?_, pieces_split _ _ _, hrest⟩
-  unfold Wire.readUntil
-  simp only [piecesOf_plain _ _ hpl]
-  rw [hrl]
+  rw [readUntil_plain _ w hpl hh, hrl]
   simp
 
 /-- the prompt read on the wire -/
 theorem readUntil_prompt {P : Bytes → Bool} (pat : Pat) (d : Nat) (body p t : Bytes) (w : Wire)
-    (hav : w.avail = body ++ NL :: p ++ t) (hpl : Plain w.avail)
+    (hav : w.avail = body ++ NL :: p ++ t) (hpl : Plain w.avail) (hh : w.held = [])
     (hS : ∀ x, pat.search x = (splitNL x).any P)
     (hb : Quiet P body) (he : NoEarly P p) (hok : PromptOK P p t)
     (hnlp : NL ∉ p) (hnlt : NL ∉ t) (hp0 : p ≠ []) (hd : (p ++ t).length < d) :
@@ -497,9 +558,7 @@ theorem readUntil_prompt {P : Bytes → Bool} (pat : Pat) (d : Nat) (body p t : 
         = (body ++ NL :: p ++ t') ++ t'' := by
       rw [hsplit, hav, ← ht'']; simp [List.append_assoc]
     rw [List.append_cancel_left this, ht'']
-  · unfold Wire.readUntil
-    simp only [piecesOf_plain _ _ hpl]
-    rw [hrl]
+  · rw [readUntil_plain _ w hpl hh, hrl]
 
 end Scrapli.Chan
 
@@ -699,7 +758,7 @@ theorem nl_cons_plain {b : Bytes} (h : Plain b) : Plain (NL :: b) := by
     unread is the rest of the trailing blanks. -/
 theorem sendInput_frames {P : Bytes → Bool} {cfg : Cfg} {dv : LineDev} (hf : Fits P cfg dv)
     (input : Bytes) (hg : GoodCmd P dv input) (stripPrompt : Bool)
-    (w : Wire) (hres : ∀ x ∈ w.avail, isHws x = true) :
+    (w : Wire) (hres : ∀ x ∈ w.avail, isHws x = true) (hheld : w.held = []) :
     ∃ L t' t'' cuts', (∀ x ∈ L, isWs x = true) ∧ NL ∉ L ∧ t' ++ t'' = dv.trail ∧
       sendInput cfg dv.onWrite input stripPrompt false false (w, []) =
         some ((L ++ dv.rbody input ++ NL :: dv.prompt ++ t',
@@ -715,7 +774,7 @@ theorem sendInput_frames {P : Bytes → Bool} {cfg : Cfg} {dv : LineDev} (hf : F
     rw [squishBuf_append, hws_squishBuf hres, squishBuf_text hg.no_bs]; rfl
   obtain ⟨b1, L, cuts1, hru1, hsplit1, hL⟩ :=
     readUntil_echo input { w with avail := w.avail ++ input, writes := w.writes ++ [input] }
-      hpl1 hg.visible hF1
+      hpl1 hheld hg.visible hF1
   have hLnl : NL ∉ L := by
     intro hm
     have : NL ∈ w.avail ++ input := by
@@ -741,7 +800,7 @@ theorem sendInput_frames {P : Bytes → Bool} {cfg : Cfg} {dv : LineDev} (hf : F
   obtain ⟨t', t'', cuts2, htt, hru2⟩ :=
     readUntil_prompt cfg.prompt cfg.depth (L ++ dv.rbody input) dv.prompt dv.trail
       { avail := L ++ dv.respond input, cuts := cuts1, writes := w.writes ++ [input, [NL]] }
-      hav2 hpl2 hf.search_lines (quiet_body hf hg hL hLnl) hf.noEarly hf.promptOK hf.prompt_nl
+      hav2 hpl2 rfl hf.search_lines (quiet_body hf hg hL hLnl) hf.noEarly hf.promptOK hf.prompt_nl
       (hws_noNL hf.trail_hws) hf.prompt_ne hf.fits_window
   have hLbs : BS ∉ L := by
     intro hm
@@ -756,7 +815,8 @@ theorem sendInput_frames {P : Bytes → Bool} {cfg : Cfg} {dv : LineDev} (hf : F
   unfold sendInput
   simp only [hw1, Bool.false_or, hf.strict, hf.ret]
   have hie : input.isEmpty = false := by simpa using hne
-  simp only [hie, Bool.false_eq_true, ↓reduceIte, hru1, Option.map_some, hw2, hru2]
+  simp only [hheld] at hru1
+  simp only [hie, Bool.false_eq_true, ↓reduceIte, hheld, hru1, Option.map_some, hw2, hru2]
 
 end Scrapli.Chan
 
@@ -858,22 +918,22 @@ theorem suffix_hws {t t' t'' : Bytes} (h : t' ++ t'' = t) (ht : ∀ x ∈ t, isH
 theorem session_in_step {P : Bytes → Bool} {cfg : Cfg} {dv : LineDev} (hf : Fits P cfg dv)
     (stripPrompt : Bool) :
     ∀ (inputs : List Bytes), (∀ i ∈ inputs, GoodCmd P dv i) →
-    ∀ (w : Wire), (∀ x ∈ w.avail, isHws x = true) →
+    ∀ (w : Wire), (∀ x ∈ w.avail, isHws x = true) → w.held = [] →
       ∃ rs w', runCmds cfg dv.onWrite stripPrompt inputs (w, []) = some (rs, (w', [])) ∧
         rs.map (·.2) = inputs.map (expected cfg dv stripPrompt) ∧
         w'.writes = w.writes ++ (inputs.map (fun i => [i, [NL]])).flatten ∧
-        (∀ x ∈ w'.avail, isHws x = true) := by
+        (∀ x ∈ w'.avail, isHws x = true) ∧ w'.held = [] := by
   intro inputs
   induction inputs with
-  | nil => intro _ w hw; exact ⟨[], w, rfl, rfl, by simp, hw⟩
+  | nil => intro _ w hw hh; exact ⟨[], w, rfl, rfl, by simp, hw, hh⟩
   | cons i is ih =>
-    intro hg w hw
+    intro hg w hw hh
     obtain ⟨L, t', t'', cuts', hLws, hLnl, htt, hsend⟩ :=
-      sendInput_frames hf i (hg i (by simp)) stripPrompt w hw
+      sendInput_frames hf i (hg i (by simp)) stripPrompt w hw hh
     obtain ⟨ht', ht''⟩ := suffix_hws htt hf.trail_hws
     obtain ⟨rs, w', hrun, hres, hwr, hav⟩ :=
       ih (fun j hj => hg j (by simp [hj]))
-        { avail := t'', cuts := cuts', writes := w.writes ++ [i, [NL]] } ht''
+        { avail := t'', cuts := cuts', writes := w.writes ++ [i, [NL]] } ht'' rfl
     refine ⟨(L ++ dv.rbody i ++ NL :: dv.prompt ++ t',
               processOutput cfg (L ++ dv.rbody i ++ NL :: dv.prompt ++ t') stripPrompt) :: rs, w', ?_, ?_, ?_, hav⟩
     · unfold runCmds; rw [hsend]; simp only; rw [hrun]; rfl
@@ -1004,9 +1064,9 @@ theorem getPrompt_exact {P : Bytes → Bool} {cfg : Cfg} {dv : LineDev} (hf : Fi
     (hfirst : ∀ x L, (splitNL x).find? P = some L →
       ∃ m, cfg.prompt.first x = some m ∧ strip m = strip L)
     (hout : dv.out [] = [])
-    (w : Wire) (hres : ∀ x ∈ w.avail, isHws x = true) :
+    (w : Wire) (hres : ∀ x ∈ w.avail, isHws x = true) (hheld : w.held = []) :
     ∃ w', getPrompt cfg dv.onWrite (w, []) = some (strip dv.prompt, (w', [])) ∧
-      w'.writes = w.writes ++ [[NL]] ∧ (∀ x ∈ w'.avail, isHws x = true) := by
+      w'.writes = w.writes ++ [[NL]] ∧ (∀ x ∈ w'.avail, isHws x = true) ∧ w'.held = [] := by
   have hrb : dv.rbody [] = [] := by simp [LineDev.rbody, hout]
   have hw1 : Wire.write dv.onWrite (w, []) cfg.ret =
       ({ w with avail := w.avail ++ dv.respond [], writes := w.writes ++ [[NL]] }, []) := by
@@ -1044,13 +1104,11 @@ theorem getPrompt_exact {P : Bytes → Bool} {cfg : Cfg} {dv : LineDev} (hf : Fi
   obtain ⟨m, hm1, hm2⟩ := hfirst _ _ hfind
   have hsplit := pieces_split w.cuts (w.avail ++ dv.respond []) k
   refine ⟨{ avail := ((piecesOf (w.avail ++ dv.respond []) w.cuts).drop k).flatten,
-            cuts := w.cuts.drop k, writes := w.writes ++ [[NL]] }, ?_, rfl, ?_⟩
+            cuts := w.cuts.drop k, writes := w.writes ++ [[NL]] }, ?_, rfl, ?_, rfl⟩
   · unfold getPrompt
     simp only [hw1]
-    unfold Wire.readUntil
-    simp only [piecesOf_plain _ _ hpl]
-    rw [hrl]
-    simp only [hm1]
+    rw [readUntil_plain _ { w with avail := w.avail ++ dv.respond [], writes := w.writes ++ [[NL]] } hpl hheld, hrl]
+    simp only [hm1, hheld]
     rw [hm2, strip_append_hws _ _ ht'hws]
   · -- what is left unread is a suffix of the trailing blanks
     have hk : ((piecesOf (w.avail ++ dv.respond []) w.cuts).take k).flatten =
@@ -1106,24 +1164,24 @@ theorem mixed_session_in_step {P : Bytes → Bool} {cfg : Cfg} {dv : LineDev} (h
       ∃ m, cfg.prompt.first x = some m ∧ strip m = strip L)
     (hout : dv.out [] = []) (stripPrompt : Bool) :
     ∀ (ops : List COp), (∀ i, COp.cmd i ∈ ops → GoodCmd P dv i) →
-    ∀ (w : Wire), (∀ x ∈ w.avail, isHws x = true) →
+    ∀ (w : Wire), (∀ x ∈ w.avail, isHws x = true) → w.held = [] →
       ∃ rs w', runOps cfg dv.onWrite stripPrompt ops (w, []) = some (rs, (w', [])) ∧
         rs = ops.map (expectedOp cfg dv stripPrompt) ∧
         w'.writes = w.writes ++ (ops.map opWrites).flatten ∧
-        (∀ x ∈ w'.avail, isHws x = true) := by
+        (∀ x ∈ w'.avail, isHws x = true) ∧ w'.held = [] := by
   intro ops
   induction ops with
-  | nil => intro _ w hw; exact ⟨[], w, rfl, rfl, by simp, hw⟩
+  | nil => intro _ w hw hh; exact ⟨[], w, rfl, rfl, by simp, hw, hh⟩
   | cons o ops ih =>
-    intro hg w hw
+    intro hg w hw hh
     have hg' : ∀ i, COp.cmd i ∈ ops → GoodCmd P dv i := fun i hi => hg i (by simp [hi])
     cases o with
     | cmd i =>
       obtain ⟨L, t', t'', cuts', hLws, hLnl, htt, hsend⟩ :=
-        sendInput_frames hf i (hg i (by simp)) stripPrompt w hw
+        sendInput_frames hf i (hg i (by simp)) stripPrompt w hw hh
       obtain ⟨ht', ht''⟩ := suffix_hws htt hf.trail_hws
       obtain ⟨rs, w', hrun, hres, hwr, hav⟩ :=
-        ih hg' { avail := t'', cuts := cuts', writes := w.writes ++ [i, [NL]] } ht''
+        ih hg' { avail := t'', cuts := cuts', writes := w.writes ++ [i, [NL]] } ht'' rfl
       refine ⟨processOutput cfg (L ++ dv.rbody i ++ NL :: dv.prompt ++ t') stripPrompt :: rs, w', ?_, ?_, ?_, hav⟩
       · unfold runOps; rw [hsend]; simp only; rw [hrun]; rfl
       · rw [hres]
@@ -1132,8 +1190,8 @@ theorem mixed_session_in_step {P : Bytes → Bool} {cfg : Cfg} {dv : LineDev} (h
         exact processOutput_indep cfg dv i L t' stripPrompt hLws hLnl ht' hf.prompt_ne hf.prompt_nl
       · rw [hwr]; simp [opWrites, List.append_assoc]
     | prompt =>
-      obtain ⟨w1, hgp, hw1, hav1⟩ := getPrompt_exact hf hfirst hout w hw
-      obtain ⟨rs, w', hrun, hres, hwr, hav⟩ := ih hg' w1 hav1
+      obtain ⟨w1, hgp, hw1, hav1, hh1⟩ := getPrompt_exact hf hfirst hout w hw hh
+      obtain ⟨rs, w', hrun, hres, hwr, hav⟩ := ih hg' w1 hav1 hh1
       refine ⟨strip dv.prompt :: rs, w', ?_, ?_, ?_, hav⟩
       · unfold runOps; rw [hgp]; simp only; rw [hrun]; rfl
       · rw [hres]; simp [expectedOp]
